@@ -770,7 +770,7 @@ def schema_report(timeout=300):
 
 # ------------------------------------------------------------------ property-module style entry points
 def scenarios(seed, tier):
-    n = 250 if tier == 'quick' else 2000
+    n = 400 if tier == 'quick' else 2400
     rnd = random.Random(seed * 104729 + 11)
     for i in range(n):
         yield 'gen%d' % i, gen_case(random.Random(rnd.getrandbits(48)), i)
